@@ -262,6 +262,22 @@ def unwrap_matches(exc, raised):
     return False
 
 
+def stable_outcome_oracle(obs, x):
+    """result() called again on a finished future reports the same outcome: a failure is not used up by being reported once."""
+    out = []
+    sec = getattr(x, 'second_outcome', None)
+    if sec is None or x.outcome is None:
+        return out
+    if x.outcome == 'raised' and sec[0] == 'success':
+        out.append(V(f'{x.label}: result() raised {x.exc!r}, but result() called again on the same future returned normally '
+                     f'({sec[1]!r}): the failed transfer now reports success', **base_mech(obs, x), sym='second-result-success'))
+    elif x.outcome == 'raised' and sec[0] == 'raised' and type(sec[1]) is not type(x.exc):
+        out.append(V(f'{x.label}: result() raised {x.exc!r}, called again it raised {sec[1]!r}', **base_mech(obs, x), sym='second-result-differs'))
+    elif x.outcome == 'success' and sec[0] == 'raised':
+        out.append(V(f'{x.label}: result() returned normally, called again it raised {sec[1]!r}', **base_mech(obs, x), sym='second-result-differs'))
+    return out
+
+
 def first_outcome_oracle(obs, x):
     """The first failure recorded is the one reported: once a user has seen future.done() == True ('done.seen', logged by the
     done-poller) the outcome is fixed, so the exception result() raises in the end cannot be one that was only RAISED after that."""
